@@ -307,6 +307,11 @@ def wiring_rules(ctx, prog):
                 above = any((o == ">" and c >= 2) or (o == ">=" and c >= 3) or (o == "<" and c <= 0) or (o == "<=" and c < 0) for o, c in facts)
                 if not above:
                     unguarded.setdefault("/".join(e[5][-2:]) + ": " + site_of(e[1], e[2]), set()).add(str(a[1]))
+    stale = sorted({site_of(e[1], e[2]) + " via " + "/".join(e[5][-2:]) for e in res.events if e[0] == "double-close" and e[4] is not None
+                    and e[4].mon.get("proc") == "child"})
+    ctx.ob("C10.W7s", "reproc_start [in the forked child]: stale numbers", "the forked child does not close by number a descriptor that its own "
+           "close-all step has already closed (the parent's pipe ends): the number may by now be 0, 1 or 2 with a standard stream installed "
+           "on it", not stale, {"closes": stale[:4]}, nontrivial=True)
     ctx.ob("C10.W7", "reproc_start [in the forked child]", "after a fork-mode start the child's stdin, stdout and stderr stay what was installed: "
            "no child end is closed by number in the forked child while that number may be 0, 1 or 2 (where the end itself is the "
            "standard stream because the parent had that descriptor closed)", not unguarded,
